@@ -19,7 +19,10 @@ EXTENDS Integers, Sequences, FiniteSets, TLC
 
 CONSTANTS RECENT,     \* length of the recent-ancestor shortcut of HasTransaction (100 in the code)
           NoBlock,    \* "not found" for block queries
-          NoTx        \* "depends on nothing"
+          NoTx,       \* "depends on nothing"
+          VarBase,    \* radix of the variable-length integers in the tx index keys (128 in the code: binary.AppendUvarint)
+          BeyondHeadStops  \* FALSE = the code: an index entry above the head's height is skipped (continue);
+                           \* TRUE = a tempting "optimisation" (break) that is WRONG because keys are not in numeric order
 
 VARIABLES blocks,  \* id -> [parent, num, conflicts, txs, revs, sers, ts, clean]
           idx,     \* <<num, conflicts>> -> sequence of ids, position n+1 = id at height n   (index trie versions)
@@ -94,13 +97,40 @@ ScanRecent(id, t, ref) ==
 TxMetaSet(h, t) == {e \in txi : /\ e.t = t /\ e.num <= Num(h)
                                 /\ blocks[GetBlockID(h, e.num)].conflicts = e.conflicts}
 
+\* The store iterates the entries of t in KEY order.  The key is id || uvarint(num) || uvarint(conflicts), compared
+\* bytewise.  uvarint is little-endian base VarBase with a continuation flag on every group but the last, so byte order
+\* is NOT numeric order once a number needs two groups (with 128: 256 = 80 02 sorts before 129 = 81 01).
+RECURSIVE Enc(_)
+Enc(n) == IF n < VarBase THEN <<n>> ELSE <<(n % VarBase) + VarBase>> \o Enc(n \div VarBase)
+RECURSIVE LexLess(_, _)
+LexLess(a, b) == IF a = <<>> THEN b # <<>>
+                 ELSE IF b = <<>> THEN FALSE
+                 ELSE IF Head(a) # Head(b) THEN Head(a) < Head(b)
+                 ELSE LexLess(Tail(a), Tail(b))
+Key(e) == Enc(e.num) \o Enc(e.conflicts)
+RECURSIVE SortByKey(_)
+SortByKey(S) == IF S = {} THEN <<>>
+                ELSE LET m == CHOOSE x \in S : \A y \in S \ {x} : LexLess(Key(x), Key(y)) IN <<m>> \o SortByKey(S \ {m})
+EntriesOf(t) == SortByKey({e \in txi : e.t = t})
+\* the loop shared by GetTransactionMeta and the indexed path of HasTransaction: first entry, in key order, that lies on
+\* the chain of h.  NoEntry = not found.
+NoEntry == [t |-> NoTx, num |-> 0, conflicts |-> 0, index |-> 0, rev |-> FALSE]
+RECURSIVE IterMeta(_, _)
+IterMeta(h, es) ==
+  IF es = <<>> THEN NoEntry
+  ELSE LET e == Head(es) IN
+       IF e.num > Num(h) THEN (IF BeyondHeadStops THEN NoEntry ELSE IterMeta(h, Tail(es)))
+       ELSE IF blocks[GetBlockID(h, e.num)].conflicts = e.conflicts THEN e
+       ELSE IterMeta(h, Tail(es))
+TxMeta(h, t) == IterMeta(h, EntriesOf(t))
+
 \* Chain.HasTransaction(id, blockRef(id))
 HasTx(h, t) ==
   LET ref == txinfo[t].ref
       hn == Num(h)
   IN IF ref > hn THEN FALSE
      ELSE IF hn - ref < RECENT THEN ScanRecent(h, t, ref)
-     ELSE txinfo[t].pfx \in filter /\ TxMetaSet(h, t) # {}
+     ELSE txinfo[t].pfx \in filter /\ TxMeta(h, t) # NoEntry
 UsesRecentPath(h, t) == txinfo[t].ref <= Num(h) /\ Num(h) - txinfo[t].ref < RECENT
 
 \* the block whose body store holds (num, conflicts, *)
@@ -111,7 +141,7 @@ DepOk(p, d, txs, revs, i) ==
   IF \E j \in 1..(i - 1) : txs[j] = d
   THEN LET j == CHOOSE j \in 1..(i - 1) : txs[j] = d /\ \A k \in 1..(i - 1) : txs[k] = d => k <= j   \* processedTxs keeps the last
        IN ~revs[j]
-  ELSE LET S == TxMetaSet(p, d) IN S # {} /\ \A e \in S : ~e.rev
+  ELSE LET e == TxMeta(p, d) IN e # NoEntry /\ ~e.rev
 
 TxAdmissible(p, txs, revs, i) ==
   LET t == txs[i]
@@ -179,7 +209,9 @@ Store(b, p, conf, txs, revs, sers, ts, asBest) ==
                                    sers |-> sers, ts |-> ts,
                                    clean |-> blocks[p].clean /\ Admissible(p, txs, revs)])
      /\ idx' = [v \in DOMAIN idx \cup {ver} |-> IF v = ver THEN Append(idx[Ver(p)], b) ELSE idx[v]]
-     /\ txi' = txi \cup {[t |-> txs[i], num |-> n, conflicts |-> conf, index |-> i - 1, rev |-> revs[i]] : i \in DOMAIN txs}
+     \* one entry per key id||num||conflicts: a tx packed twice in the block leaves the entry of its last position
+     /\ txi' = txi \cup {[t |-> txs[i], num |-> n, conflicts |-> conf, index |-> i - 1, rev |-> revs[i]] :
+                           i \in {k \in DOMAIN txs : \A j \in DOMAIN txs : j > k => txs[j] # txs[k]}}
      /\ filter' = filter \cup {txinfo[txs[i]].pfx : i \in DOMAIN txs}
      /\ heads' = (heads \ {p}) \cup {b}
      /\ best' = IF asBest THEN b ELSE best
@@ -268,5 +300,6 @@ DepsOk == \A h \in CleanHeads : \A b \in ChainSet(h) : \A i \in DOMAIN blocks[b]
                           /\ ~blocks[x[1]].revs[x[2]]
 LookupAgrees == \A h \in CleanHeads : LET on == UNION {Range(blocks[b].txs) : b \in ChainSet(h)} IN
                   \A t \in DOMAIN txinfo : /\ HasTx(h, t) = (t \in on)
-                                            /\ (TxMetaSet(h, t) # {}) = (t \in on)
+                                            /\ (TxMeta(h, t) # NoEntry) = (t \in on)
+                                            /\ (TxMeta(h, t) # NoEntry => TxMeta(h, t) \in TxMetaSet(h, t))
 =============================================================================
